@@ -364,19 +364,26 @@ def semantic_table(inner: ast.For, ren):
         if len(vals) != 1:
             raise _Unsupported(f"sinks receive different values {sorted(vals)}")
         return next(v for _, _, v, _ in sinks), sinks
-    first_sinks = None
+    per_e = {}
     for w in worlds:
         val, sinks = run_world(w)
         results[w] = val
         sk = [(k, t) for k, t, _, _ in sinks]
         if not isinstance(val, _Tok) or not val.startswith("raises"):
-            if first_sinks is None:
-                first_sinks = (sk, sinks)
-            elif first_sinks[0] != sk:
-                raise _Unsupported("the sinks written depend on the key facts")
-    if first_sinks is None:
-        raise _Unsupported("no world reaches a sink")
-    return results, first_sinks[1]
+            if w[0] not in per_e:
+                per_e[w[0]] = (sk, sinks)
+            elif per_e[w[0]][0] != sk:
+                raise _Unsupported("which entries are written depends on which keys the mapping holds")
+    if not per_e:
+        raise _Unsupported("no case reaches a sink")
+    # which entries are written may depend on I == J (the mirrored entry is only written off the diagonal): all of them, each once
+    out, seen = [], set()
+    for e_ in (False, True):
+        for s_ in per_e.get(e_, ([], []))[1]:
+            if (s_[0], s_[1]) not in seen:
+                seen.add((s_[0], s_[1]))
+                out.append(s_)
+    return results, out
 
 
 def spec_value(w, prefer="IJ"):
